@@ -161,6 +161,7 @@ func dump(srv *hopserver.HopServer, ks *authkeys.SyncAuthKeySet, kn keyNames) st
 
 type grantArgs struct {
 	gtype      int
+	startNs    int64 // sub-second part of the start (only a grant stored by code can have one)
 	start, exp int64
 	user       string
 	key        int
@@ -172,6 +173,16 @@ func parseGrant(f []string) (g grantArgs, ok bool) {
 		return
 	}
 	gt, ok1 := natLt(f[0], 256)
+	var frac uint64
+	if i := strings.IndexByte(f[1], '.'); i >= 0 {
+		var okf bool
+		frac, okf = natLt(f[1][i+1:], 1000000000)
+		if !okf {
+			return
+		}
+		f = append([]string{}, f...)
+		f[1] = f[1][:i]
+	}
 	st, ok2 := natLt(f[1], tMax)
 	ex, ok3 := natLt(f[2], tMax)
 	// `z`: the bound is left at the zero time.Time
@@ -183,7 +194,7 @@ func parseGrant(f []string) (g grantArgs, ok bool) {
 	if !(ok1 && ok2 && ok3 && ok4 && ok5 && ok6) {
 		return
 	}
-	g = grantArgs{int(gt), int64(st), int64(ex), string(u), int(k), string(cmd)}
+	g = grantArgs{int(gt), int64(frac), int64(st), int64(ex), string(u), int(k), string(cmd)}
 	if zs {
 		g.start = unset
 	}
@@ -209,7 +220,7 @@ func parseIssue(f []string) (sess int, g grantArgs, leafOk bool, ok bool) {
 	}
 	i, ok1 := natLt(f[1], 1000)
 	g, ok2 := parseGrant(f[2:8])
-	if !ok1 || !ok2 || g.start == unset || g.exp == unset {
+	if !ok1 || !ok2 || g.start == unset || g.exp == unset || g.startNs != 0 {
 		return
 	}
 	if g.gtype == 3 || g.gtype == 4 || (g.gtype != 2 && g.cmd != "") || (g.exp > 1500000000 && g.exp < 3000000000) {
@@ -221,7 +232,7 @@ func parseIssue(f []string) (sess int, g grantArgs, leafOk bool, ok bool) {
 func (g grantArgs) intent(pk keys.DHPublicKey) *authgrants.Intent {
 	i := &authgrants.Intent{
 		GrantType:      authgrants.GrantType(g.gtype),
-		StartTime:      timeOf(g.start),
+		StartTime:      timeOf(g.start).Add(time.Duration(g.startNs)),
 		ExpTime:        timeOf(g.exp),
 		TargetSNI:      certs.DNSName("target.example"),
 		TargetUsername: g.user,
@@ -341,7 +352,7 @@ func runState(in *bufio.Scanner, out *bufio.Writer) {
 				if int(i) >= len(sessions) {
 					return "nosess"
 				}
-				in := grantArgs{int(gt), 0, int64(ex), string(u), 1, "x"}.intent(keyOf(1))
+				in := grantArgs{int(gt), 0, 0, int64(ex), string(u), 1, "x"}.intent(keyOf(1))
 				if f[5] == "0" {
 					in.DelegateCert.Type = certs.Intermediate
 				}
@@ -395,13 +406,16 @@ type genGrant struct {
 	user       string
 	key        int
 	cmd        string
-	zs, ze     bool // the bound is left unset (zero time.Time); start / exp are 0 then
+	zs, ze     bool   // the bound is left unset (zero time.Time); start / exp are 0 then
+	frac       uint64 // nanoseconds past start
 }
 
 func (gg genGrant) words() string {
 	st, ex := strconv.FormatUint(gg.start, 10), strconv.FormatUint(gg.exp, 10)
 	if gg.zs {
 		st = "z"
+	} else if gg.frac != 0 {
+		st += "." + strconv.FormatUint(gg.frac, 10)
 	}
 	if gg.ze {
 		ex = "z"
@@ -429,6 +443,13 @@ func genState(g *GenCtx) {
 	g.Op("exec 0 1500 0 %s 0", HexOrDash([]byte("lsx")))
 	g.Op("exec 0 1500 0 %s 0", HexOrDash([]byte("ls")))
 	g.Op("exec 0 1500 0 %s 0", HexOrDash([]byte("ls"))) // all used
+	// a start that is not on a whole second
+	g.Op("new")
+	g.Op("grant 2 1000.800000000 2000 %s 1 %s", HexOrDash([]byte("u")), HexOrDash([]byte("ls")))
+	g.Op("login %s 1", HexOrDash([]byte("u")))
+	g.Op("exec 0 1000 300000000 %s 0", HexOrDash([]byte("ls")))
+	g.Op("exec 0 1000 799999999 %s 0", HexOrDash([]byte("ls")))
+	g.Op("exec 0 1000 800000000 %s 0", HexOrDash([]byte("ls")))
 	// bounds that were never filled in (zero time.Time): no expiry = always expired, no start = effective at once
 	g.Op("new")
 	g.Op("grant 2 1000 z %s 1 %s", HexOrDash([]byte("u")), HexOrDash([]byte("ls")))
@@ -485,6 +506,8 @@ func genState(g *GenCtx) {
 			}
 			if g.R.Chance(1, 25) {
 				gg.zs, gg.start = true, 0
+			} else if g.R.Chance(1, 8) {
+				gg.frac = Pick(g.R, []uint64{1, 500000000, 800000000, 999999999}) // not on a whole second
 			}
 			if gg.gtype != 2 && g.R.Chance(2, 3) {
 				gg.cmd = ""
@@ -580,6 +603,10 @@ func genState(g *GenCtx) {
 					}
 					if g.R.Chance(1, 4) {
 						nsec = Pick(g.R, []uint64{1, 500000000, 999999999})
+					}
+					if gg.frac != 0 && g.R.Chance(1, 2) {
+						// around the sub-second start
+						sec, nsec = gg.start, Pick(g.R, []uint64{0, gg.frac - 1, gg.frac, gg.frac / 2})
 					}
 					if g.R.Chance(3, 4) {
 						cmd = gg.cmd
